@@ -43,6 +43,13 @@ def run(ctx: Ctx):
             + [(z, 9990, 9999, ctx.seed, 0) for z in rnd.sample(ids, 20)]
     else:
         tasks = [(z, -9998, 2100, ctx.seed, 0) for z in ids] + [(z, 2100, 9999, ctx.seed, 300) for z in ids]
+    # zones with one transition on the first and on the last days of time (and one in the middle), gaps and overlaps, small and whole-day
+    # (only those whose local times around the transition all lie inside the calendar: a result beyond the last day has to raise,
+    #  which is another matter)
+    singles = [f"single:{day}:{sod}:{b}:{a}" for day in (2932896, 2932895, -4371222, -4371221, 19000)
+               for sod in (43200, 3600, 82800) for (b, a) in ((0, 3600), (3600, 0), (-36000, 50400), (7200, -3600))
+               if not (day >= 2932895 and ((b, a) == (-36000, 50400) or sod == 82800)) and not (day <= -4371221 and (sod != 43200 or b > a))]
+    tasks += [(z, -9998, 9999, ctx.seed, 0) for z in (rnd.sample(singles, 12) if q else singles)]
     rnd.shuffle(tasks)
     res = parallel_map(zonewalk.map_events, tasks)
     nm = sum(1 for r in res for e in r if e["op"] == "map")
